@@ -79,6 +79,7 @@ static std::atomic<long long> g_progress{0};
 static thread_local int t_tid = -1;
 static thread_local bool t_held = false;
 static bool g_trace = false;
+static std::atomic<bool> g_overflow{false};
 
 static void lock_log()
 {
@@ -100,13 +101,16 @@ static void append(char const* site, void const* o, long long a, long long b)
         id = it->second;
     }
     g_log.push_back(ev{my_tid(), site, id, a, b});
+    // a healthy run logs O(chunks * workers) events; a runaway one (e.g. a worker popping from
+    // memory that is not a queue) is cut off and reported
+    if (g_log.size() >= 200000) g_overflow = true;
 }
 // phase 0 = point before an instrumented atomic operation: take the log lock so that the
 // operation and its post event are one step of the linearisation; phase 2 = post: append, unlock.
 static void sink(int phase, char const* site, void const* o, std::uint64_t a, std::uint64_t b) noexcept
 {
     g_progress.fetch_add(1, std::memory_order_relaxed);
-    if (!g_trace) return;
+    if (!g_trace || g_overflow.load(std::memory_order_relaxed)) return;
     // only the hooks of the index queue and of bulk itself (a task does not suspend or migrate
     // between one of their points and the following post; other modules' hooks may)
     if (std::strncmp(site, "ciq.", 4) != 0 && std::strncmp(site, "bulk.", 5) != 0) return;
@@ -463,11 +467,13 @@ static void run_one(case_t const& c)
                 }
                 else { ++idle; }
                 last = p;
-                if (idle >= 250 && double(std::clock() - cpu0) / CLOCKS_PER_SEC >= 8.0)
+                if (g_overflow.load() || (idle >= 250 && double(std::clock() - cpu0) / CLOCKS_PER_SEC >= 8.0))
                 {
+                    bool const ovf = g_overflow.load();
                     g_trace = false;
+                    if (ovf) { g_log.resize(2000); }
                     dump_log();
-                    std::printf("end hang\n");
+                    std::printf(ovf ? "end runaway\n" : "end hang\n");
                     std::fflush(stdout);
                     _exit(0);
                 }
